@@ -381,6 +381,56 @@ theorem impersonation_gate {κ : Type} {g : Bool} {encode : CertData → κ} {sr
     · rename_i pods hl
       exact ⟨caller, na, pods, hc, hna, hs, hl, (cluster_gate_iff _ _ _ _).1 hok⟩
 
+/-- "Parses as a SPIFFE identity" means exactly the string shape `spiffe://<td>/ns/<ns>/sa/<sa>`. -/
+theorem parseIdentity_sound {s td ns sa : String} (h : parseIdentity s = some (td, ns, sa)) :
+    s = "spiffe://" ++ td ++ "/ns/" ++ ns ++ "/sa/" ++ sa := by
+  unfold parseIdentity at h
+  split at h
+  · simp at h
+  · rename_i hp
+    have hpre : uriPrefix.toList ++ s.toList.drop uriPrefix.toList.length = s.toList := by
+      have : uriPrefix.toList.isPrefixOf s.toList = true := by simpa [hasPrefix] using hp
+      exact List.prefix_iff_eq_append.1 (List.isPrefixOf_iff_prefix.1 this)
+    have hlen : uriPrefix.length = uriPrefix.toList.length := by decide
+    rw [hlen] at h
+    generalize hrest : s.toList.drop uriPrefix.toList.length = rest at h hpre
+    split at h
+    · rename_i td' a ns' b sa' hs
+      split at h
+      · rename_i hab
+        simp only [Option.some.injEq, Prod.mk.injEq] at h
+        obtain ⟨rfl, rfl, rfl⟩ := h
+        obtain ⟨rfl, rfl⟩ := hab
+        simp only [split, String.toList_ofList] at hs
+        have hj := joinC_splitC '/' rest
+        cases hsc : splitC '/' rest with
+        | nil => simp [hsc] at hs
+        | cons x1 t1 =>
+          rw [hsc] at hs hj
+          match t1, hs, hj with
+          | [x2, x3, x4, x5], hs, hj =>
+            simp only [List.map_cons, List.map_nil, List.cons.injEq, and_true] at hs
+            obtain ⟨h1, h2, h3, h4, h5⟩ := hs
+            apply String.toList_injective
+            rw [← hpre, ← hj]
+            simp only [joinC_cons2, joinC_single, String.toList_append, ← h1, ← h3, ← h5, String.toList_ofList]
+            have e1 : "spiffe://".toList = uriPrefix.toList := rfl
+            have e2 : "/ns/".toList = '/' :: x2 ++ ['/'] := by
+              have : x2 = "ns".toList := by rw [← String.toList_ofList (l := x2), h2]
+              rw [this]; decide
+            have e3 : "/sa/".toList = '/' :: x4 ++ ['/'] := by
+              have : x4 = "sa".toList := by rw [← String.toList_ofList (l := x4), h4]
+              rw [this]; decide
+            rw [e1, e2, e3]
+            simp
+          | [], hs, _ => simp at hs
+          | [_], hs, _ => simp at hs
+          | [_, _], hs, _ => simp at hs
+          | [_, _, _], hs, _ => simp at hs
+          | _ :: _ :: _ :: _ :: _ :: _, hs, _ => simp at hs
+      · simp at h
+    · simp at h
+
 /-- Without a configured node authorizer (`CA_TRUSTED_NODE_ACCOUNTS` empty) every impersonation
     request is refused. -/
 theorem impersonation_needs_authorizer {κ : Type} (g : Bool) (encode : CertData → κ) (ca : CA)
